@@ -807,6 +807,17 @@ class H2Stream:
         return STREAM_OPEN[self.state_machine.state]
 
     @property
+    def reserved(self):
+        """
+        Whether the stream is reserved by a PUSH_PROMISE and not opened yet.
+        Reserved streams do not count towards the concurrent streams limit,
+        but opening them does.
+        """
+        return self.state_machine.state in (
+            StreamState.RESERVED_LOCAL, StreamState.RESERVED_REMOTE
+        )
+
+    @property
     def closed(self):
         """
         Whether the stream is closed.
